@@ -174,6 +174,8 @@ func runC15(t *testing.T, seed uint64, tier string) (*Scenario, *Result) {
 		w.HDS.SetServerData(hdsServerID, cur)
 		var pool []*c15tok
 		inner := 0
+		// mounted once, as cmd/main.go mounts /smoke-test
+		smoke := hagallhttp.VerifyAuthTokenHandler(w.HDS, func(rw http.ResponseWriter, _ *http.Request) { inner++; rw.WriteHeader(200) })
 		var lastAdmitted *c15tok
 		n := 10 + r.Intn(30)
 		g0 := readGauges()
@@ -271,7 +273,7 @@ func runC15(t *testing.T, seed uint64, tier string) (*Scenario, *Result) {
 				req := httptest.NewRequest("POST", "http://hagall.test/smoke-test", nil)
 				applyCarriers(req, tokens)
 				rec := httptest.NewRecorder()
-				hagallhttp.VerifyAuthTokenHandler(w.HDS, func(rw http.ResponseWriter, _ *http.Request) { inner++; rw.WriteHeader(200) })(rec, req)
+				smoke(rec, req)
 				sim.Settle()
 				status = rec.Code
 				admitted = inner == before+1
